@@ -95,6 +95,12 @@ def step (st : Option State) (line : String) : Option State × String :=
     match parseVer ver with
     | some ver => (some { s with data := trash s.data ver }, "ok")
     | none => bad
+  | ["setver", ver, hash], some s =>
+    match parseVer ver, unhexN hash with
+    | some ver, some hash =>
+      if hash.length < 16 then bad else
+      (some (setVersion s ver hash), "ok")
+    | _, _ => bad
   | ["maxv"], some s =>
     (st, match maxVersion s with | some v => toString v | none => "notfound")
   | ["dump"], some s => (st, dump s.data)
